@@ -462,11 +462,12 @@ class SArr(object):
     Immutable handle; the buffer is the mutable heap object.  Views share it.
     """
 
-    def __init__(self, buf, off, n, dtype="f8"):
+    def __init__(self, buf, off, n, dtype="f8", stride=1):
         self.buf = buf
         self.off = off if not isinstance(off, Sym) else off.e
         self.n = n if not isinstance(n, Sym) else n.e
         self.dtype_name = dtype
+        self.stride = stride
 
     @property
     def kind(self):
@@ -480,6 +481,8 @@ class SArr(object):
         """z3 term of element i (z3 Int or int)."""
         i = z3.IntVal(i) if isinstance(i, int) else i
         off = z3.IntVal(self.off) if isinstance(self.off, int) else self.off
+        if self.stride != 1:
+            i = i * self.stride
         return self.buf.get(z3.simplify(off + i))
 
     def elem(self, i):
@@ -1489,11 +1492,13 @@ class Interp(object):
         self.exec_block(s.orelse, frame)
 
     def s_For(self, s, frame):
-        itv = self.eval(s.iter, frame)
-        # loops with a sidecar invariant
+        # loops with a sidecar contract (invariant or summary)
         spec = self.loop_spec_for(s, frame)
         if spec is not None:
-            return spec(self, s, frame, itv)
+            if getattr(spec, "wants_iter", True):
+                return spec(self, s, frame, self.eval(s.iter, frame))
+            return spec(self, s, frame, None)
+        itv = self.eval(s.iter, frame)
         if isinstance(itv, SDict):
             return self.for_dict(s, frame, itv)
         from . import pymodels as _pm
@@ -2159,6 +2164,81 @@ class Interp(object):
         else:
             for k, v in self.iterate(src):
                 d.entries[k] = (True, v)
+
+
+class RangeInvariant(object):
+    """Sidecar loop contract for `for v in range(lo, hi[, step])` with symbolic
+    bounds: the classical rule (initially / preserved / exit), executed inside
+    the current path.
+
+      inv(it, frame, k)      -> z3 Bool: invariant at the loop head with v == k
+      havoc(it, frame)       -> list of SBuf written by the body (their contents
+                                are replaced by fresh functions)
+      name                   -> obligation id prefix
+    Obligations are proved through it.reg (named <name>.inv.initially,
+    <name>.inv.preserved); on exit the state is the havoced state constrained
+    by the invariant at the exit value (or the entry state if lo >= hi).
+    """
+    wants_iter = False
+
+    def __init__(self, name, inv, havoc, function=None, replay=None, lemmas=()):
+        self.name, self.inv, self.havoc = name, inv, havoc
+        self.function, self.replay = function, replay
+        self.lemmas = list(lemmas)    # lemma instances used by the proofs only
+
+    def __call__(self, it, s, frame, _itv):
+        call = s.iter
+        if not (isinstance(call, ast.Call) and isinstance(call.func, ast.Name)
+                and call.func.id == "range" and isinstance(s.target, ast.Name)):
+            raise OutsideSubset("RangeInvariant on a loop that is not `for v in range(...)`")
+        args = [it.eval(a, frame) for a in call.args]
+        if len(args) == 1:
+            lo, hi, step = 0, args[0], 1
+        elif len(args) == 2:
+            lo, hi, step = args[0], args[1], 1
+        else:
+            lo, hi, step = args
+        if not isinstance(step, int) or step <= 0:
+            raise OutsideSubset("loop step must be a positive constant")
+        loe, hie = int_expr(lo), int_expr(hi)
+        reg = it.reg
+        v = s.target.id
+        # 1. initially
+        reg.prove(self.name + ".inv.initially", it.pc + self.lemmas + [loe < hie], self.inv(it, frame, loe),
+                  function=self.function, replay=self.replay)
+        # 2. preserved by an arbitrary iteration
+        snap = it.snapshot()
+        nframes = len(it.frames)
+        bufs = self.havoc(it, frame)
+        for b in bufs:
+            f = z3.Function("havoc!%s!%d" % (b.name, len(it.heap.objs) + id(b) % 1000),
+                            z3.IntSort(), z3.RealSort() if b.kind == "real" else z3.IntSort())
+            b.get = (lambda j, f=f: f(j))
+        k = fresh("k_" + v, "int").e
+        it.pc.extend([k >= loe, k < hie, (k - loe) % step == 0, self.inv(it, frame, k)])
+        frame.vars[v] = Sym(k)
+        try:
+            it.exec_block(s.body, frame)
+        except (_Break, _Continue, _Return):
+            raise OutsideSubset("break/continue/return inside an invariant loop")
+        it.discharge_sides(reg, self.name + ".body", function=self.function, replay=self.replay)
+        reg.prove(self.name + ".inv.preserved", it.pc + self.lemmas + [k + step < hie],
+                  self.inv(it, frame, k + step), function=self.function, replay=self.replay)
+        # what the last iteration establishes is kept as the exit fact
+        exit_fact_pc = list(it.pc[snap[2]:])
+        last = z3.And(*exit_fact_pc) if exit_fact_pc else z3.BoolVal(True)
+        contents_after = [b.get for b in bufs]
+        del it.frames[nframes:]
+        it.restore(snap)
+        # 3. exit state: entry state if no iteration, else the state after the
+        #    last iteration (k + step >= hi) of the arbitrary-iteration run
+        entered = loe < hie
+        for b, g_after in zip(bufs, contents_after):
+            g_before = b.get
+            b.get = (lambda j, ga=g_after, gb=g_before: z3.If(entered, ga(j), gb(j)))
+        it.pc.append(z3.Implies(entered, z3.And(last, k + step >= hie)))
+        frame.vars[v] = Sym(k)
+        self.exit_k = k
 
 
 class _Poison(object):
